@@ -13,6 +13,7 @@ import (
 	"runtime"
 	"strings"
 	"time"
+	"unsafe"
 )
 
 // Config of one simulation run.
@@ -103,6 +104,8 @@ type Sim struct {
 	// (the harness sets it while a client request is in flight).
 	InFlight       int
 	SwitchInFlight uint64
+	startSync      int32 // race edges: Run's caller -> root task
+	endSync        int32 // race edges: every task's end -> Run's return
 	skipped        int
 	TimeAdvances   uint64
 	DeadlockStacks string
@@ -153,6 +156,11 @@ func Run(cfg Config, root func()) *Sim {
 	})
 	s.cur = t
 	t.state = stRunning
+	// whatever the caller did before Run happens-before the root task, and every
+	// task's end happens-before Run's return; nothing else about the hand-offs
+	// is visible to the race detector
+	raceRelease(unsafe.Pointer(&s.startSync))
+	raceOff()
 	t.resume <- struct{}{}
 	<-s.mainCh
 	// tear down: no task is running now
@@ -163,6 +171,8 @@ func Run(cfg Config, root func()) *Sim {
 			<-t.exited
 		}
 	}
+	raceOn()
+	raceAcquire(unsafe.Pointer(&s.endSync))
 	S = nil
 	if int(s.Preempt) > MaxPreemptSeen {
 		MaxPreemptSeen = int(s.Preempt)
@@ -175,12 +185,19 @@ func (s *Sim) newTask(name string, f func()) *Task {
 	s.tasks = append(s.tasks, t)
 	go func() {
 		defer close(t.exited)
+		raceOff()
 		<-t.resume
+		raceOn()
 		if s.killed {
 			t.state = stDone
 			return
 		}
+		if t.ID == 0 {
+			raceAcquire(unsafe.Pointer(&s.startSync))
+		}
 		defer func() {
+			raceRelease(unsafe.Pointer(&s.endSync))
+			raceOff() // the rest is hand-off (no raceOn: the goroutine ends here)
 			if s.killed {
 				t.state = stDone
 				return
@@ -290,6 +307,10 @@ func (s *Sim) advanceTime() bool {
 		s.Steps++
 		s.TimeAdvances++
 		t.fired = true
+		// a timer firing on whichever task happened to be scheduling must not
+		// order that task's past before the tick's receiver
+		raceOff()
+		defer raceOn()
 		t.fire()
 		// every timer due at this same instant fires before any task runs, so
 		// that a select can really find several ready cases (tickers with a
@@ -323,8 +344,10 @@ func (s *Sim) switchTo(next *Task) {
 	s.Sched = s.Sched*1099511628211 + uint64(next.ID) + 1
 	s.cur = next
 	next.state = stRunning
+	raceOff()
 	next.resume <- struct{}{}
 	<-cur.resume
+	raceOn()
 	s.checkKilled()
 }
 
@@ -332,8 +355,10 @@ func (s *Sim) fail(err error) {
 	if s.Err == nil {
 		s.Err = err
 	}
+	raceOff()
 	s.mainCh <- struct{}{}
 	<-s.cur.resume
+	raceOn()
 	s.checkKilled()
 }
 
@@ -384,8 +409,10 @@ func (s *Sim) block(wake func() bool, what string) {
 	cur.what = what
 	next := s.pickBlocking()
 	if next == nil {
+		raceOff()
 		s.mainCh <- struct{}{}
 		<-cur.resume
+		raceOn()
 		s.checkKilled()
 		return
 	}
